@@ -274,6 +274,11 @@ func c06L1Single(rec *vlib.Rec, pool *c06Pool, idx, bi int, f *c06Fault) {
 			rec.Count("l1_single_evaluations", 1)
 			rec.Nontrivial(fmt.Sprintf("1|%s|%d|%d|%s", f.id, bi, pos, s))
 			got := c.judge(rec, idx, o)
+			if idx%1499 == 0 && pos == 0 {
+				w := c.witness(idx, o)
+				w["observed"], w["allowed"] = got.String(), c06Classify(s, f).String()
+				rec.Sample(w)
+			}
 			seen[got.String()] = append(seen[got.String()], pos)
 			if first == nil {
 				first, firstObs = c, o
